@@ -63,7 +63,7 @@ class TLCResult:
         self.finished = "Model checking completed" in out or "Finished in" in out
         # per-action coverage: lines like  <Add line 10, col 1 to line 12, col 30 of module X>: 12:34
         self.coverage = {}
-        for m in re.finditer(r"^<(\w+) line \d+, col \d+ to line \d+, col \d+ of module \w+>: (\d+):(\d+)", out, re.M):
+        for m in re.finditer(r"^<(\w+) line \d+, col \d+ to line \d+, col \d+ of module \w+(?: \([\d ]+\))?>: (\d+):(\d+)", out, re.M):
             a = self.coverage.setdefault(m.group(1), [0, 0])
             a[0] += int(m.group(2))
             a[1] += int(m.group(3))
@@ -102,7 +102,7 @@ class TLCResult:
                 except ValueError:
                     pass
                 buf = None
-            elif len(buf) > 400:
+            elif len(buf) > 200000:
                 buf = None
         return vals
 
@@ -119,10 +119,13 @@ class TLCResult:
 
 def run_tlc(module: str, cfg: str, workdir: Path, *, workers="auto", timeout=600, dump=False,
             simulate=None, depth=None, seed=None, env=None, coverage=True, deadlock=None,
-            view_dump=False, extra=(), depth_first=False, spec_dir: Path | None = None) -> TLCResult:
+            view_dump=False, extra=(), depth_first=False, spec_dir: Path | None = None, tag: str = "") -> TLCResult:
     """cfg: text of the configuration. module: file stem under specs/ (or spec_dir)."""
     workdir.mkdir(parents=True, exist_ok=True)
     sd = spec_dir or SPECS
+    if tag:
+        workdir = workdir / tag
+        workdir.mkdir(parents=True, exist_ok=True)
     cfgp = workdir / f"{module}.cfg"
     cfgp.write_text(cfg)
     meta = workdir / f"meta-{module}-{time.time_ns()}"
@@ -260,7 +263,7 @@ def parse_sim_file(path: Path):
     """A behaviour written by `tlc -simulate file=...`: list of (action_name, state dict)."""
     txt = Path(path).read_text()
     out = []
-    for m in re.finditer(r"\\\* <?(\w+)[^\n]*\nSTATE_\d+ ==\n((?:.*\n)*?)(?=\n|\Z)", txt):
+    for m in re.finditer(r"\\\* <?(\w+)[^\n]*\nSTATE_\d+ == *\n((?:.*\n)*?)(?=\n|\Z)", txt):
         out.append((m.group(1), tlaval.parse_state(m.group(2))))
     return out
 
@@ -340,7 +343,7 @@ class Check:
             self.states += r.distinct
             self.transitions += r.generated
         for a in require_actions:
-            if r.coverage.get(a, [0, 0])[0] == 0:
+            if r.coverage.get(a, [0, 0])[1] == 0:  # [distinct new states, times taken]
                 raise MachineryError(f"vacuity: action {a} of {module} never taken")
         if expect_ok and r.violated:
             # the *specification* does not satisfy its own property: a machinery/design failure
@@ -462,6 +465,7 @@ def main(pid: str, run):
 
     logging.disable(logging.CRITICAL)
     warnings.filterwarnings("ignore")
+    ck = None
     try:
         ck = Check(pid)
         run(ck)
@@ -473,4 +477,6 @@ def main(pid: str, run):
         traceback.print_exc()
         print(f"MACHINERY-FAILURE property={pid}: unexpected exception in harness", file=sys.stderr)
         rc = 2
+    if ck is not None and not os.environ.get("VERIF_KEEP_WORK"):
+        shutil.rmtree(ck.work, ignore_errors=True)
     sys.exit(rc)
